@@ -194,6 +194,8 @@ pub fn merge_spec(name: &str, rewrite: Option<(bool, usize)>) -> WorldSpec {
             r.pos = pos_of(P_NOUN);
         }
     }
+    // words of a user dictionary take part in merges and are left alone like any other
+    s.users.push(vec![Row::new("タカ", 7, 7, 2500, P_NOUN), Row::new("12", 9, 9, 2000, P_NUM), Row::new("ナ", 7, 7, 2500, P_KATA).reading("ナ2")]);
     if let Some((norm, min)) = rewrite {
         s.plugins["pathRewritePlugin"] = json!([join_numeric(norm), join_katakana(min, P_KATA)]);
     }
